@@ -2,6 +2,7 @@
 // One binary per tasking backend; ASan + UBSan + LSan.
 #include "common/pbt.h"
 #include "common/tracked.h"
+#include "common/forked.h"
 
 #include "rkcommon/tasking/AsyncTask.h"
 #include "rkcommon/tasking/async.h"
@@ -289,7 +290,12 @@ struct WakeCase
   int viaAsync = 0;
   auto tie() { return std::tie(threads, rounds, maxDelayUs, viaAsync); }
 };
+static void wakeup_rounds_body(const WakeCase &c, pbt::Ctx &ctx);
 static void wakeup_rounds(const WakeCase &c, pbt::Ctx &ctx)
+{
+  pbt::forked(ctx, [&](pbt::Ctx &cc) { wakeup_rounds_body(c, cc); });
+}
+static void wakeup_rounds_body(const WakeCase &c, pbt::Ctx &ctx)
 {
   const int threads = std::max(1, c.threads);
   initTaskingSystem(threads);
@@ -332,7 +338,31 @@ static void wakeup_rounds(const WakeCase &c, pbt::Ctx &ctx)
   ctx.label("wakeup-rounds-threads=" + std::to_string(threads));
 }
 
+static void run_step(const Case &c, pbt::Ctx &ctx);
+// A case is a short HISTORY of steps executed in one forked child (the parent never touches the tasking system):
+// configuration changes between steps (re-initialisation with another thread count, first use of an API) are part
+// of the case, and the case replays identically in a fresh process.
+struct Hist
+{
+  std::vector<Case> steps;
+  auto tie() { return std::tie(steps); }
+};
+static void run_history(const Hist &h, pbt::Ctx &ctx)
+{
+  pbt::forked(ctx, [&](pbt::Ctx &cc) {
+    for (const Case &c : h.steps)
+      run_step(c, cc);
+    if (h.steps.size() >= 2)
+      cc.label("history>=2-steps");
+  });
+}
+// single steps in the harness process itself: LeakSanitizer checks at process exit that no closure / packaged_task /
+// result object handed to the tasking system was left behind
 static void run_case(const Case &c, pbt::Ctx &ctx)
+{
+  run_step(c, ctx);
+}
+static void run_step(const Case &c, pbt::Ctx &ctx)
 {
   // every case configures the tasking system itself (a replayed case must not depend on earlier cases)
   g_threads = c.threads > 0 ? c.threads : 2;
@@ -374,7 +404,7 @@ static rc::Gen<Case> genCase()
   const char *tier = getenv("PBT_TIER");
   int maxBurst = (tier && std::string(tier) == "thorough") ? 100000 : 2000;
 #if defined(RKCOMMON_TASKING_OMP)
-  maxBurst = std::min(maxBurst, 20000);  // this backend starts one detached thread per scheduled task
+  maxBurst = std::min(maxBurst, (tier && std::string(tier) == "thorough") ? 20000 : 600);  // one detached thread per scheduled task
 #endif
   auto burst = gen::weightedOneOf<int>({{4, pbt::range<int>(1, 8)}, {3, pbt::range<int>(9, 200)}, {1, pbt::range<int>(200, maxBurst)}});
   return gen::build<Case>(gen::set(&Case::api, gen::weightedElement<int>({{2, 0}, {2, 1}, {4, 2}})), gen::set(&Case::rtype, pbt::range<int>(0, 4)),
@@ -384,13 +414,27 @@ static rc::Gen<Case> genCase()
       gen::set(&Case::threads, gen::weightedOneOf<int>({{1, gen::just(1)}, {4, pbt::range<int>(2, 8)}})), gen::set(&Case::value, pbt::range<int>(0, 100000)));
 }
 
+// Two kinds of binaries are built from this source: with -DC02_FORKED the properties that fork a child per case
+// (their parent process must never touch the tasking system), without it the in-process property (LeakSanitizer at exit).
 static void register_properties()
 {
-  pbt::property<Case>("tasks", 500, genCase(), run_case);
+#ifdef C02_FORKED
+  {
+    auto hist = rc::gen::map(rc::gen::mapcat(rc::gen::weightedElement<int>({{1, 1}, {3, 2}, {2, 3}}), [](int n) { return rc::gen::container<std::vector<Case>>((size_t)n, genCase()); }),
+        [](const std::vector<Case> &v) {
+          Hist h;
+          h.steps = v;
+          return h;
+        });
+    pbt::property<Hist>("task_histories", 250, hist, run_history);
+  }
   using namespace rc;
   auto wc = gen::build<WakeCase>(gen::set(&WakeCase::threads, gen::weightedElement<int>({{4, 2}, {1, 1}, {1, 3}, {1, 4}})), gen::set(&WakeCase::rounds, pbt::range<int>(2000, 20000)),
       gen::set(&WakeCase::maxDelayUs, gen::element<int>(5, 20, 60, 200)), gen::set(&WakeCase::viaAsync, pbt::range<int>(0, 1)));
   pbt::property<WakeCase>("wakeup_rounds", 12, wc, wakeup_rounds);
+#else
+  pbt::property<Case>("tasks", 400, genCase(), run_case);
+#endif
 }
 #ifndef C02_BIN
 #define C02_BIN "C02_tasks_" BACKEND
